@@ -1119,7 +1119,8 @@ _fe = {"dir": "{repo}", "pkgs": ["./internal/frontend/parser"], "contracts": [ST
 PROPS["C14"]["govc"] = [dict(_fe, prop="C14"), {"dir": "{repo}", "pkgs": ["./internal/ast"], "contracts": ["{repo}/internal/ast/zz_contracts_verif.go"], "prop": "C14"}]
 PROPS["C14"]["assumptions"] += [
     "front-end parser contracts: proved under FWF (rows present, stored actions in range) and FNoRecovery (no row of the checked-in tables is a recovery state: established on tables.go by lrref under C15) plus the viable-stack schemata for the front-end tables; Scanner.Scan, TokenMap.TokenString/Type, Position.String, error.Error, errors.New are trusted",
-    "LexProdMap.Add is proved to panic exactly when a lexical production id is defined twice (in the map already or earlier in the same call); the per-kind duplicate tests of NewLexPart, NewGrammar (which hands on consistent's verdict) and main's exit policy have no contract: the ill-formed corpus and the SEMMUT family decide them (bounded)",
+    "LexProdMap.Add is proved to panic exactly when a lexical production id is defined twice (in the map already or earlier in the same call); main's exit policy (Parse error or scanner errors -> status 1) has no contract: the ill-formed corpus and the SEMMUT family decide it (bounded)",
+    "NewGrammar is proved to return consistent's verdict on the augmented grammar (error exactly when the augmented grammar has an empty alternative or uses an undefined production name), for a nil or non-nil lexical part; SyntaxPart.augment is trusted (append(a, b...) is outside the subset): it prepends S' : <name of the first production> and keeps the other productions. NewLexPart / NewLexProdMap are proved to panic exactly when two lexical productions (of any kind) share a name and otherwise to return the lexical part without error with every token definition in TokDefsList; the three per-kind duplicate tests of NewLexPart are proved to be dead code (allow_unreachable)",
     "ast.consistent is proved to return a non-nil error exactly when some alternative has no symbols or some symbol that is not a string literal, not defined as token or production, not empty/error, and starts with an upper-case letter is used in a production body (all five loops, three of them over maps, any iteration order). Trusted there: unicode.IsUpper and utf8.DecodeRuneInString are functions of their argument; fmt.Errorf returns a non-nil error; SyntaxStringLit.String renders a text that starts with a double quote (fmt.Sprintf); the package variable errUndefined is initialised (non-nil); symbol texts are non-empty (the scanner never yields an empty identifier)",
 ]
 PROPS["C14"]["explanation"] = "Deductive part (govc on internal/frontend/parser, for arbitrary well-formed tables without recovery states and arbitrary token streams): Error never recovers - it discards nothing, pushes nothing, scans nothing; Parse never panics, executes one LR step per iteration, scans a token only in a shift step, and ends with an error the first time the current token has no action. So an accepted input was consumed token by token by the validated automaton (C15) - nothing is skipped or repaired. Bounded part: token-mutation run of the real parser on the corpus (every scanned token consumed, no phantom error symbol, reuse) and the ill-formed corpus (semantic checks, lexical errors, exit status)."
